@@ -4,54 +4,155 @@ import subprocess
 import vlib
 
 META = {
-    "engine": "RefCount.tla, RefCountInd.tla, Trace_Counter.tla",
+    "engine": "RefCount.tla, RefCountInd.tla, RefCountTreeInd.tla, RefHandoff.tla, Trace_Counter.tla",
     "technique": "TLC explores all handle programs x all interleavings of the library's atomic steps on RefCount.tla (invariants: alive while "
-                 "referenced, destroyed once, no use after free); every transition's history is forced onto real threads by a "
-                 "token-passing scheduler hooked into atomicInc/atomicDec and compared step by step; free-running contended "
-                 "counter logs are validated by TLC as linearizable",
+                 "referenced, destroyed once, no use after free, subtree of nested containers destroyed once by the last dropper); every "
+                 "transition's history (complete executions for the Var / handle-API configurations) is forced onto real threads by a "
+                 "token-passing scheduler hooked into atomicInc/atomicDec and compared step by step (payload destructors, freed blocks, "
+                 "null-ness and identity of every handle); RefHandoff.tla composes the counting model with a Mutex/Semaphore/Queue "
+                 "hand-off; free-running contended logs are validated by TLC as linearizable, value-returning operations included",
     "design_ref": "DESIGN.md section 6, C12",
-    "level_text": "Exhaustive model checking of the reference-count protocol of each handle type (2-3 threads, bounded programs) with "
-                  "scheduler-forced conformance replay on Array/Map/HashMap/Shared<T>/SmartObject classes under ASan, plus trace "
-                  "validation of recorded high-contention AtomicCount / Atomic<T> executions (no lost update).",
+    "level_text": "Exhaustive model checking of the reference-count protocol of each handle type (five counting disciplines: Array/Map, "
+                  "HashMap, Shared<T>, SmartObject classes, Var containers with embedded handles; 2-3 threads, bounded programs) and of "
+                  "the rest of the handle API (null handles, self-assignment, as<>() + converting copy, clone()) with scheduler-forced "
+                  "conformance replay on Array/Map/Dic/Stack/Queue/Array2/HashMap/HashDic/Shared<T>/SmartObject classes/Var arrays and objects "
+                  "under ASan; inductive "
+                  "invariants for unboundedly many operations (flat and nested) by Apalache; exhaustive hand-off model (Mutex, Semaphore, "
+                  "Queue of handles); trace validation of recorded executions: high-contention AtomicCount / Atomic<T> (no lost update, "
+                  "every returned value of ++/--/read/store/compare/negate explained by one linearization), Dic/HashDic/Set/Stack/Queue/"
+                  "Array2/nested Var handles, handles captured by asl::Thread lambdas, handles passed through a locked Queue (FIFO, each "
+                  "taken once), reference counts never touched after reaching zero.",
     "level_note": "Interleavings are enumerated at the ASL_VERIF hook points (one per atomic read-modify-write); a non-atomic "
                   "counter cannot be pre-empted by the scheduler and is caught by the free-running recorded runs instead. "
-                  "Weak-memory effects below sequential consistency are not modelled.",
+                  "Weak-memory effects below sequential consistency are not modelled.  String and string-typed Var copies are deep "
+                  "(nothing shared); Xml nodes count with a plain int (not shareable between threads, no atomic step to schedule); "
+                  "AtomicCount's reads are plain volatile reads - their values are validated (linearizable) but they are not exercised "
+                  "under the data-race detector; Array/HashMap clone() go through several private counter steps and are left to C01/C02.",
 }
 
 TYPES = ["array", "smart", "shared", "hashmap"]
+# growth: Var containers with embedded handles (cascading destruction) and the rest of the Shared<T> / SmartObject handle API
+# (null handles, a = a, as<>() + converting copy, clone()).  These configurations emit complete executions only (EmitFinal).
+EXT_QUICK = ["var", "sharedapi_q", "smartapi_q"]
+# thorough: the *_all configurations emit every transition (like the base ones), the others complete executions of bigger bounds
+EXT_THOROUGH = ["var_all", "sharedapi_q_all", "smartapi_q_all", "var_tree", "var_t3", "sharedapi", "smartapi"]
+
+
+def _models(ctx, jobs):
+    """The RefCount configurations are independent: run TLC on them side by side (few workers each), account serially.
+    jobs: (spec, cfg, emit path, coverage?)"""
+    import concurrent.futures as cf
+    import time
+
+    def one(arg):
+        k, (spec, cfg, p, cover) = arg
+        time.sleep(0.2 * k)
+        return vlib.tlc(spec, cfg, emit_to=p, workers=ctx.pick(3, 6), timeout=ctx.pick(400, 2400), xmx="4g", coverage=cover)
+
+    with cf.ThreadPoolExecutor(ctx.pick(8, 3)) as ex:
+        results = list(ex.map(one, enumerate(jobs)))
+    for (spec, cfg, p, cover), r in zip(jobs, results):
+        what = "%s/%s" % (spec, cfg)
+        vlib.tlc_expect_ok(r, what)
+        if cover:
+            z = vlib.zero_coverage(r, ("Silent",))      # the base configurations have no operation without atomic step
+            if z:
+                raise vlib.HarnessError("%s: vacuous run, actions never taken: %s" % (what, z))
+        ctx.states += r.distinct
+        ctx.transitions += r.generated
+        ctx.engines.append("%s: %d distinct states, %d transitions, depth %d, %.1fs" % (what, r.distinct, r.generated, r.depth, r.wall))
+        vlib.log(ctx.engines[-1])
+
+
+def _start_apalache(ctx):
+    import threading
+    obligations = [("base", ["--cinit=CInit", "--init=Init", "--inv=IndInv", "--length=0"]),
+                   ("step", ["--cinit=CInit", "--init=IndInv", "--inv=IndInv", "--length=1"]),
+                   ("IndInv=>Safe", ["--cinit=CInit", "--init=IndInv", "--inv=Safe", "--length=0"])]
+    st = {"threads": [], "failed": [], "n": 0}
+
+    def prove(spec):
+        wd = os.path.join(ctx.tmp, "apalache-" + spec)
+        for name, args in obligations:
+            try:
+                ok, out = vlib.apalache(spec, args, wd, timeout=ctx.pick(900, 1800))
+            except Exception as e:  # noqa
+                ok, out = False, repr(e)
+            if not ok:
+                st["failed"].append("Apalache obligation '%s' of %s.tla failed:\n%s" % (name, spec, out))
+                return
+            st["n"] += 1
+
+    for spec in ("RefCountInd", "RefCountTreeInd"):
+        th = threading.Thread(target=prove, args=(spec,))
+        th.start()
+        st["threads"].append(th)
+    return st
 
 
 def run(ctx):
     lib = vlib.build_lib("asan")
     rep = vlib.build_harness(lib, "c12_sched", ["c12_sched.cpp"])
     cases = os.path.join(ctx.tmp, "c12.cases")
+    jobs = []
+    for ty in TYPES:
+        for cfg in (["MC_RefCount_%s" % ty] if ctx.quick else ["MC_RefCount_%s" % ty, "MC_RefCount_%s_t3" % ty]):
+            jobs.append(("RefCount", cfg, os.path.join(ctx.tmp, "rc-%s.cases" % cfg), True))
+    ext = EXT_QUICK if ctx.quick else EXT_THOROUGH
+    for name in ext:
+        # (no -coverage: it doubles the run time and sees a single Choose action anyway; vacuity is counted below)
+        jobs.append(("RefCount", "MC_RefCount_%s" % name, os.path.join(ctx.tmp, "rc-%s.cases" % name), False))
+    # handles handed over through a Mutex-protected Queue + Semaphore: the composition of hand-off and counting (design model;
+    # bound to the code by the recorded hand-off executions, Trace_Counter.tla ChanOK + the per-counter linearization)
+    nhand = 0
+    for cfg in (["quick"] if ctx.quick else ["thorough", "t3"]):
+        jobs.append(("RefHandoff", "MC_RefHandoff_%s" % cfg, os.path.join(ctx.tmp, "handoff-%s.out" % cfg), True))
+        nhand += 1
+    apal = _start_apalache(ctx)
+    _models(ctx, jobs)
+    for k in range(nhand):
+        hand = jobs.pop()[2]
+        if os.path.exists(hand):
+            os.unlink(hand)
+    kinds = {}
     with open(cases, "w") as out:
-        for ty in TYPES:
-            p = os.path.join(ctx.tmp, "rc-%s.cases" % ty)
-            cfgs = ["MC_RefCount_%s" % ty] if ctx.quick else ["MC_RefCount_%s" % ty, "MC_RefCount_%s_t3" % ty]
-            for cfg in cfgs:
-                ctx.model("RefCount", cfg, emit_to=p, workers=8, timeout=ctx.pick(300, 2400), xmx="8g")
-                out.write(open(p).read())
-                os.unlink(p)
+        for spec, cfg, p, cover in jobs:
+            text = open(p).read()
+            out.write(text)
+            os.unlink(p)
+            name = cfg[len("MC_RefCount_"):]
+            if name in ext:
+                # vacuity per operation kind, counted on the emitted executions
+                for k in ("copy", "drop", "assign", "conv", "asnull", "clone", "mknull"):
+                    kinds[(name, k)] = text.count('"k":"%s"' % k)
+    want = {"var": ("copy", "drop", "assign", "mknull"), "sharedapi": ("copy", "drop", "assign", "conv", "asnull", "clone", "mknull"),
+            "smartapi": ("copy", "drop", "assign", "conv", "asnull", "clone", "mknull")}
+    for (name, k), n in kinds.items():
+        if n == 0 and k in want[name.split("_")[0]]:
+            raise vlib.HarnessError("MC_RefCount_%s: no emitted execution contains operation '%s' (vacuous)" % (name, k))
+    ctx.extra["ext_operation_counts"] = {"%s/%s" % nk: n for nk, n in sorted(kinds.items()) if n}
     ctx.exhaustive = True
-    ctx.rule = ("one case per transition of the RefCount state graph: per-thread programs of copy/drop/assign plus the schedule "
-                "(thread of every atomic step) and the expected destroyed-flags after every step; non-trivial = all; distinct by line")
+    ctx.rule = ("one case per transition of the RefCount state graph (base configurations) or per complete execution (Var / API "
+                "configurations): per-thread programs of handle operations plus the schedule (thread of every atomic step), the "
+                "thread's expected slot contents before every operation and the expected destroyed/freed flags after every step; "
+                "non-trivial = all; distinct by line")
+    # array / hashmap cases also run on the derived containers (Dic, Stack, Queue, Array2 / HashDic): one of them per case, chosen
+    # by the case (C12_MORE_TYPES=all in the environment runs all of them on every case: +60 % replay time)
     ctx.replay(rep, cases, label="R/RefCount", args=["--batch", "300"], timeout=ctx.pick(900, 3600))
-    # unbounded number of operations: the protocol's inductive invariant, discharged symbolically by Apalache
-    wd = os.path.join(ctx.tmp, "apalache")
-    obligations = [("base", ["--cinit=CInit", "--init=Init", "--inv=IndInv", "--length=0"]),
-                   ("step", ["--cinit=CInit", "--init=IndInv", "--inv=IndInv", "--length=1"]),
-                   ("IndInv=>Safe", ["--cinit=CInit", "--init=IndInv", "--inv=Safe", "--length=0"])]
-    for name, args in obligations:
-        ok, out = vlib.apalache("RefCountInd", args, wd, timeout=600)
-        if not ok:
-            raise vlib.HarnessError("Apalache obligation '%s' of RefCountInd.tla failed:\n%s" % (name, out))
+    # unbounded number of operations: the protocols' inductive invariants, discharged symbolically by Apalache (started above,
+    # runs beside the model checking and the replay)
+    for th in apal["threads"]:
+        th.join()
+    if apal["failed"]:
+        raise vlib.HarnessError("\n".join(apal["failed"]))
     ctx.engines.append("RefCountInd.tla: inductive invariant IndInv (3 threads, unbounded operations) discharged by Apalache: "
                        "base, step, IndInv => Safe")
-    ctx.extra["apalache_obligations"] = len(obligations)
+    ctx.engines.append("RefCountTreeInd.tla: inductive invariant IndInv of nested containers (parent embeds a handle to a child; cascading "
+                       "destruction; 3 threads, unbounded operations) discharged by Apalache: base, step, IndInv => Safe")
+    ctx.extra["apalache_obligations"] = apal["n"]
     # V: free-running contended executions, every atomic result logged, linearized by TLC
     rec = vlib.build_harness(lib, "c12_record", ["c12_record.cpp"])
-    files = ctx.record(rec, ctx.pick(8, 32), ctx.pick(6000, 40000), "V/Counter", timeout=ctx.pick(300, 1500))
+    files = ctx.record(rec, ctx.pick(8, 32), ctx.pick(4000, 30000), "V/Counter", timeout=ctx.pick(300, 1500))
     ctx.validate_traces("Trace_Counter", "Trace_Counter", files, label="V/Counter", timeout=ctx.pick(600, 2400), xss="512m")
     # auxiliary: the same contended drivers, hooks silent, under ThreadSanitizer (the property quantifies over runs under a
     # data-race detector); a report in this driver - which only copies/assigns/drops own handles and bumps counters - is
@@ -60,7 +161,8 @@ def run(ctx):
     trec = vlib.build_harness(tlib, "c12_record", ["c12_record.cpp"])
     n0 = len(ctx.violations)
     ctx.record(trec, ctx.pick(4, 16), ctx.pick(1500, 20000), "TSan/Counter", extra_args=["--mode", "3"], timeout=ctx.pick(300, 1800),
-               env={"TSAN_OPTIONS": "exitcode=97:halt_on_error=1:second_deadlock_stack=1"})
+               env={"TSAN_OPTIONS": "exitcode=97:halt_on_error=1:second_deadlock_stack=1:suppressions=" +
+                    os.path.join(vlib.HARNESS, "c12_tsan.supp")})
     ctx.extra["tsan_runs_clean"] = len(ctx.violations) == n0
     ctx.assumptions += [
         "threads only touch their own handles (the property's precondition)",
